@@ -66,6 +66,9 @@ def term_templates():
         "Mod": lambda T, O: F(T) % 2,
         "Interval.arith": lambda T, O: F(T) + P.Interval(days=1),
         "JSON.op": lambda T, O: F(T).get_json_value("k"),
+        # an independently aliased twin of the OLD table's name (self-join): it is another source and stays
+        "BasicCriterion.twin": lambda T, O: F(T, "boss") == F(P.Table("told").as_("mgr"), "id"),
+        "Function.twin": lambda T, O: fn.Coalesce(F(P.Table("told").as_("mgr"), "n"), F(T)),
     }
     return tt
 
@@ -107,6 +110,8 @@ def stmt_templates():
         "update.where_foreign": lambda Q, T, O: Q.update(O).set(F(O, "x"), 1).where(F(T, "w") == 1),
         "delete.where_foreign": lambda Q, T, O: Q.from_(T).delete().where(F(O, "w") == 1),
         "select.prewhere_foreign": lambda Q, T, O: Q.from_(O).select(F(O, "o")).prewhere(F(T, "w") == 1),
+        "select.selfjoin_twin": lambda Q, T, O: (lambda M: Q.from_(T).join(M).on(F(T, "boss") == F(M, "id")).select(F(T), F(M, "n")).where(F(M, "w") == 1))(
+            P.Table("told").as_("mgr")),
         "insert.table": lambda Q, T, O: Q.into(T).insert(1),
         "insert.select": lambda Q, T, O: Q.into(O).from_(T).join(O2).cross().select(F(T)),
         "insert.columns": lambda Q, T, O: Q.into(T).columns(F(T, "c")).insert(1),
@@ -124,12 +129,18 @@ def stmt_templates():
     return st, pg
 
 
+def _hashed(t):
+    hash(t), str(t), {t: 1}
+    return t
+
+
 def pairs():
     import pypika_tortoise as P
 
     return {
         "plain->plain": lambda: (P.Table("told"), P.Table("tnew")),
         "aliased->plain": lambda: (P.Table("told", alias="ao"), P.Table("tnew")),
+        "as_()->plain": lambda: (_hashed(P.Table("told")).as_("ao"), P.Table("tnew")),   # the alias given by as_() to a table that was already hashed / rendered
         "plain->aliased": lambda: (P.Table("told"), P.Table("tnew", alias="an")),
         "schema->plain": lambda: (P.Table("told", schema="s1"), P.Table("tnew")),
         "plain->other-source": lambda: (P.Table("told"), P.Table("oth")),   # the new table IS the statement's other table
